@@ -25,3 +25,27 @@ prop(
     timeout={"quick": 300, "thorough": 600},
     mem_gb=8,
 )
+
+prop(
+    "C15",
+    level="other",
+    explanation="(in progress)", bounds="", outside="", level_text="", level_note="", technique="", assumptions=[],
+    timeout={"quick": 600, "thorough": 1200},
+    mem_gb=8,
+)
+
+prop(
+    "C37",
+    level="other",
+    explanation="(in progress)", bounds="", outside="", level_text="", level_note="", technique="", assumptions=[],
+    timeout={"quick": 600, "thorough": 1200},
+    mem_gb=8,
+)
+
+prop(
+    "C13",
+    level="other",
+    explanation="(in progress)", bounds="", outside="", level_text="", level_note="", technique="", assumptions=[],
+    timeout={"quick": 600, "thorough": 1200},
+    mem_gb=8,
+)
